@@ -15,7 +15,9 @@ PROP = dict(
         assumptions=["Go-runtime interleavings inside the fetch/verify/store pipeline are sampled (GOMAXPROCS 2-4, -race), not enumerated",
                      "abandoned blocks never become canonical again (every reorg produces fresh blocks)",
                      "a rollback of the source that is never followed by growth is indistinguishable from a lagging replica: the source grows by one block before it is frozen",
+                     "a self-consistent forged block (recomputed hash, right number) is never served to revertTask's hash-comparison fetch: nothing short of re-executing it distinguishes it from a real fork block",
                      "pre_confirmed polling is disabled (poll interval 0) as in the synchronizer's own tests",
                      "the subscriber drains the lossy feeds promptly; only subsequence / exact-range facts are asserted"],
+        # TestRaceSync… = the generated check; TestRaceKnown… = deterministic witnesses of the three known findings
         runs=[dict(run="^TestRace", race=True)],
     )
